@@ -48,6 +48,25 @@ def batches(tier, seed):
               for _ in range(rng.choice([0, 1, 2, 2, 3, 3, 4]))]
         gc.append({'_grp': True, 'members': ms, '_i': i})
     yield 'grouping-degree', gc
+    # grouping entries with an open-ended member and a member of minimum degree >= 1 that exists only in some scenarios: the
+    # aggregated minimum must be that of the members present (seeded change C11-group-minimum-from-absent-member)
+    gp_ = []
+    for i in range(24 if tier == 'quick' else 400):
+        c = None
+        for _try in range(300):
+            c0 = dsgcase.gen_sel(rng, max_nodes=6, max_choices=2, n_incompat=0)
+            if dsgcase.guards(c0):
+                continue
+            c1 = conndrive.add_connection(rng, c0, n_choices=1, group_prob=0.6, permanent_only=False)
+            if _group_open_with_conditional_min(c1):
+                c = c1
+                break
+        if c is None:
+            continue
+        c['_i'] = i
+        c['_proc'] = True
+        gp_.append(c)
+    yield 'g-group-conditional-processor', gp_
 
 
 def _run_grouping(case):
@@ -120,6 +139,36 @@ def _group_with_open_member(case):
     return False
 
 
+def _spec_min(spec):
+    return spec[1] if spec[0] in ('min', 'range') else (min(spec[1]) if spec[1] else 0)
+
+
+def _group_open_with_conditional_min(case):
+    kinds = case.get('kinds', {})
+    permanent = dsgcase.py_closure({k: v for k, v in case.items() if k != 'conn'}, {})
+    for cc in case.get('conn', []):
+        for e in cc['src'] + cc['tgt']:
+            if isinstance(e, int):
+                continue
+            specs = [(m, kinds[str(m)][1]) for m in e[1]]
+            if any(sp[0] == 'min' and m in permanent for m, sp in specs) and any(m not in permanent and _spec_min(sp) >= 1 for m, sp in specs):
+                return True
+    return False
+
+
+def _only_extra(fail):
+    """K23 is about architectures the implementation has *in addition* (more parallel connections than the scenario graph
+    accepts); a model architecture the implementation lacks is not that finding (seeded change C11-group-minimum-from-absent-member)"""
+    import re
+    cl, det = fail.get('clause') or '', fail.get('detail') or ''
+    if cl == 'architectures-differ':
+        return 'missing [] extra' in det
+    if cl == 'n-valid-designs-differs':
+        m = re.search(r'impl (\d+) model (\d+)', det)
+        return bool(m) and int(m.group(1)) > int(m.group(2))
+    return True
+
+
 def _group_repeat_depends_on_presence(case):
     """K34 guard: a grouping entry with members of both kinds (parallel connections allowed / not allowed) of which a member
     that allows them exists only conditionally"""
@@ -155,9 +204,13 @@ def match_known(case, fail, known):
         if k.get('id') == 'K33' and (fail.get('clause') or '').startswith('processor-raises:ValueError') and \
                 'not feasible to begin with' in (fail.get('detail') or '') and dsgcase.orphan_required_connector(case):
             return k
+        if k.get('id') == 'K36' and (fail.get('clause') or '').startswith('processor-raises:ValueError') and \
+                'max() iterable argument is empty' in (fail.get('detail') or '') and _group_with_open_member(case):
+            return k
         if k.get('id') == 'K34' and case.get('_proc') and (fail.get('clause') or '') in ('architectures-differ', 'two-rows-one-architecture', 'n-valid-designs-differs', 'decoded-architecture-not-in-model') and \
                 _group_repeat_depends_on_presence(case):
             return k
-        if k.get('id') == 'K23' and fail.get('clause') in ('architectures-differ', 'n-valid-designs-differs', 'two-rows-one-architecture') and _group_with_open_member(case):
+        if k.get('id') == 'K23' and fail.get('clause') in ('architectures-differ', 'n-valid-designs-differs', 'two-rows-one-architecture') and \
+                _group_with_open_member(case) and _only_extra(fail):
             return k
     return dsgcase.match_known({k: v for k, v in case.items() if k != 'conn'}, fail, known)
